@@ -540,6 +540,8 @@ class FelicaLite(tt3.Type3Tag):
 
             # if password is empty use factory key of 16 zero bytes
             key = password[0:16] if password else b"\0"*16
+            if not isinstance(key, (bytes, bytearray)):
+                key = key.encode("ascii")
 
             log.debug("protect with key %s", hexlify(key).decode())
             self.write_without_mac(key[7::-1] + key[15:7:-1], 0x87)
@@ -847,7 +849,9 @@ class FelicaLiteS(FelicaLite):
                     return False
 
             # if password is empty use factory key of 16 zero bytes
-            key = password[0:16].encode("ascii") if password else b'\0' * 16
+            key = password[0:16] if password else b'\0' * 16
+            if not isinstance(key, (bytes, bytearray)):
+                key = key.encode("ascii")
 
             log.debug("protect with key %s", hexlify(key).decode())
             ckv = self.read_without_mac(0x86)
